@@ -553,6 +553,14 @@ md_open(struct Driver* drvr, uint64_t device_id, struct Device** out)
         *out = 0;
         return Device_Ok;
     }
+    // (outside scripted replays:) a driver whose open fails after it has stored a pointer in *out - a unit found busy, an
+    // allocation released again on an init error. Nothing was opened: any call the HAL makes with that pointer reaches
+    // the driver as a call on a device it does not know (h = 0).
+    if (ans_src != SRC_SCRIPT && out && answer("open_writes_out", 2, 0)) {
+        static union { struct Camera c; struct Storage s; } never_opened;
+        memset(&never_opened, 0, sizeof never_opened);
+        *out = g_kind == K_CAM ? &never_opened.c.device : &never_opened.s.device;
+    }
     return Device_Err;
 }
 static enum DeviceStatusCode
